@@ -43,6 +43,48 @@ def probes(work, stats):
     return lines
 
 
+def stress_programs(rng, tier):
+    """Programs that drive every understood method of the shipped configuration through the call paths that hand
+    out (parts of) the configured method types: union receivers, safe navigation, assignment to a call's result,
+    growth of a call's result by push / << / concat, wrong arguments.  One statement group per method, grouped
+    40 to a program; every statement starts from fresh literals."""
+    meths, _ = S.methods_of(C.SHIPPED_CFG)
+    others = {"Integer": ["String", "Float"], "String": ["Integer", "Array"], "Float": ["Integer", "String"],
+              "Array": ["String", "Hash"], "Hash": ["Array", "String"], "Symbol": ["String", "Integer"],
+              "NilClass": ["Integer", "String"], "Range": ["Array", "Integer"]}
+    groups = []
+    for (cls, name), decls in meths.items():
+        cases = S.cases_for(cls, name, decls)
+        ok = cases[0][1]
+        bad = [a for k, a in cases if k.startswith("foreign-arg")][:1]
+        g = []
+        for o in others[cls]:
+            g += ["vfu = true ? %s : %s" % (S.RECV[cls], S.RECV[o]), S.call_src("vfu", name, ok),
+                  "vfu = true ? %s : %s" % (S.RECV[o], S.RECV[cls]), "vfq = " + S.call_src("vfu", name, ok)]
+        g += ["vfr = %s" % S.RECV[cls], "vfq = " + S.call_src("vfr", name, ok), "vfq.push(1.5)", "vfq << :sym"]
+        if name not in S.OPERATORS and not name.endswith("=") and ok == []:
+            g += ["vfr = %s" % S.RECV[cls], "vfq = vfr&.%s" % name]
+        g += ["vfr = %s" % S.RECV[cls], S.call_src("vfr", name, ok) + " = \"s\""]
+        for a in bad:
+            g += ["vfr = %s" % S.RECV[cls], S.call_src("vfr", name, a)]
+        groups.append(("stress:%s#%s" % (cls, name), g))
+    if tier == "quick":
+        rng.shuffle(groups)
+    progs = []
+    size = 25
+    for s_ in range(0, len(groups), size):
+        part = groups[s_:s_ + size]
+        lines = ["foo = 1.5"]
+        for tag, g in part:
+            lines += g
+        progs.append(("stress:%s.." % part[0][0].split(":", 1)[1], "\n".join(lines) + "\n", None))
+        _GROUPS[progs[-1][0]] = part
+    return progs
+
+
+_GROUPS = {}
+
+
 def run(tier, work):
     v = C.Verdict("C12", tier, work)
     rng = C.tier_rng(tier, 12)
@@ -56,6 +98,8 @@ def run(tier, work):
     cfgs = P.gen_configs(work)
     progs = [(t, x, None) for t, x in P.corpus(rng, 200 if tier == "quick" else 585)]
     progs += P.generated(work, stats, rng, *((15, 10, 10) if tier == "quick" else (80, 50, 50)))
+    stress = stress_programs(rng, tier)
+    progs += stress
     mode = "round" if tier == "quick" else "stmt"
     jobs = [{"cfg": cfgs[c] if c else None, "files": {"t.rb": x}, "args": ["t.rb"], "trace": True, "digest": mode, "tag": t}
             for t, x, c in progs]
@@ -64,6 +108,21 @@ def run(tier, work):
         results = wr.run_many(jobs)
     finally:
         wr.close()
+    # a stress program that crashes (known crash sites of single methods) is re-run one method at a time
+    redo = []
+    for job, res in zip(jobs, results):
+        if (res.get("died") or res.crashed or res.hung) and job["tag"] in _GROUPS:
+            for tag, g in _GROUPS[job["tag"]]:
+                redo.append({"cfg": None, "files": {"t.rb": "foo = 1.5\n" + "\n".join(g) + "\n"}, "args": ["t.rb"], "trace": True,
+                             "digest": mode, "tag": tag})
+    if redo:
+        wr = C.Runner(work, "worker")
+        try:
+            jobs = jobs + redo
+            results = results + wr.run_many(redo)
+        finally:
+            wr.close()
+        v.count("stress_groups_rerun_alone", len(redo))
     traces = []
     known_ev = 0
     for i, (job, res) in enumerate(zip(jobs, results)):
@@ -140,9 +199,10 @@ def run(tier, work):
     v.sample({"probe_program_lines": pl[:6], "probes": len(pl) // 2})
     v.sample({"digest_mode": mode, "programs": len(jobs)})
     cov = {"states": stats["states"], "transitions": stats["transitions"], "traces_validated_against_impl": stats["traces"],
-           "trace_events": stats["trace_events"], "programs_digested": len(jobs), "digest_mode": mode,
+           "trace_events": stats["trace_events"], "programs_digested": len(jobs), "digest_mode": mode, "stress_programs": len(stress),
            "known_mutation_events": known_ev, "probe_hosts_compared": compared, "probes": len(pl) // 2,
-           "rule": "corpus + TLC-generated programs analysed with a digest of every configured entry after each "
+           "rule": "corpus + TLC-generated programs + stress programs (every understood method of the shipped configuration through "
+                   "union receivers, &., assignment to the call, growth of the result, wrong arguments) analysed with a digest of every configured entry after each "
                    "round (quick) / statement (thorough); traces validated by TLC against Run.tla (no action explains a "
                    "mutation event); probes of every understood configured method appended to corpus programs"}
     return v.finish("model_checking", cov, assumptions=[
